@@ -18,11 +18,13 @@ import (
 // label tells whether the case is a boundary or ill-formed one.
 func genString(rt *rapid.T, label string) (s string, class string) {
 	class = rapid.SampledFrom([]string{"ascii", "ascii", "utf8-2", "utf8-3", "utf8-4", "mixed", "len-boundary", "len-65535", "len-65536",
-		"empty", "nul", "surrogate", "overlong", "truncated", "beyond-U+10FFFF", "lone-continuation", "fe-ff", "noncharacter", "control"}).Draw(rt, label+"Class")
+		"replacement-char", "empty", "nul", "surrogate", "overlong", "truncated", "beyond-U+10FFFF", "lone-continuation", "fe-ff", "noncharacter", "control"}).Draw(rt, label+"Class")
 	base := rapid.StringMatching(`[a-z/]{1,8}`).Draw(rt, label+"Base")
 	switch class {
 	case "ascii":
 		s = base
+	case "replacement-char": // U+FFFD is a well-formed character like any other
+		s = rapid.SampledFrom([]string{base + "\ufffd", "\ufffd", "\ufffd" + base + "\ufffd\ufffd"}).Draw(rt, label+"Repl")
 	case "utf8-2":
 		s = base + "é߿\u0080"
 	case "utf8-3":
@@ -96,8 +98,20 @@ func TestC09Requests(t *testing.T) {
 			var names []string
 			var classes []string
 			nn := 1
+			oversize := false
 			if !isPub {
-				nn = rapid.SampledFrom([]int{0, 1, 1, 2, 3, 8}).Draw(rt, "filters")
+				nn = rapid.SampledFrom([]int{0, 1, 1, 2, 3, 8, -1}).Draw(rt, "filters")
+				if nn < 0 {
+					// filters which are fine one by one and exceed the 268,435,455-byte
+					// packet limit together (one 65,535-byte string, repeated)
+					nn, oversize = 0, true
+					boundary = true
+					long := strings.Repeat("o", 65535)
+					for j := 0; j < 4097; j++ {
+						names = append(names, long)
+					}
+					classes = append(classes, "4097 x 65535 bytes")
+				}
 			}
 			for j := 0; j < nn; j++ {
 				s, class := genString(rt, "name")
@@ -149,6 +163,9 @@ func TestC09Requests(t *testing.T) {
 				_ = overMax
 			}
 			valid := nn > 0
+			if oversize {
+				valid = false
+			}
 			if isPub && len(payload) > 0 && 2+len(names[0])+len(payload) > refmqtt.MaxRemaining-2 {
 				head := 2 + len(names[0])
 				if method != "Publish" && method != "PublishRetained" {
@@ -164,7 +181,7 @@ func TestC09Requests(t *testing.T) {
 				}
 			}
 			size := 0
-			if !isPub {
+			if !isPub && !oversize {
 				size = 2
 				for _, s := range names {
 					size += 2 + len(s)
